@@ -91,6 +91,8 @@ class Exec(object):
         elif op == "closing":
             if s[1] in w.conns:
                 w.begin_close(s[1])
+        elif op == "halfconn":
+            w.half_connection(s[1])
         elif op == "adv":
             w.advance(s[1])
         elif op == "restart":
